@@ -237,8 +237,20 @@ def evaluate(case, louts, ctx):
         trAB, trBA = {}, {}
         kinds = ["ca"]
     ctx.count("kinds:" + "x".join(kinds))
-    s1 = Cube(respAB, transforms=trAB, population=pop).partitions[0]
-    s2 = Cube(respBA, transforms=trBA, population=pop).partitions[0]
+    msz = case.get("min_base", 0) or 0
+    s1 = Cube(respAB, transforms=trAB, population=pop, mask_size=msz).partitions[0]
+    s2 = Cube(respBA, transforms=trBA, population=pop, mask_size=msz).partitions[0]
+    # the minimum-base-size masks mirror too (incl. on subtotal differences, whose base is undefined one way)
+    for (x, xn, y, yn) in ((s1, "row_mask", s2, "column_mask"), (s1, "column_mask", s2, "row_mask"),
+                           (s1, "table_mask", s2, "table_mask")):
+        a = common.call_impl(lambda: getattr(x.min_base_size_mask, xn))
+        b = common.call_impl(lambda: getattr(y.min_base_size_mask, yn))
+        ok, where = common.deep_close(a, _tr(b))
+        if not ok and _empty_mat(a) and _empty_mat(b):
+            ok = True
+        if not ok:
+            findings.append({"kind": "spec", "locus": "pair.min_base_size_mask.%s~%s" % (xn, yn),
+                             "detail": "mask_size=%s %s of A x B vs %s of B x A%s | %s vs %s" % (msz, xn, yn, where, sc._short(a), sc._short(b))})
     both_catdate = kinds == ["cat_date", "cat_date"]
     for rname, cname in PAIRED:
         for (x, xn, y, yn) in ((s1, rname, s2, cname), (s1, cname, s2, rname)):
